@@ -381,6 +381,60 @@ def crosscheck(result):
     result.coverage['reduction_crosscheck'] = rows
 
 
+def _conf_task(cfg):
+    st, viols, outcomes = M.explore(cfg, oracle_values, 'D', None, 100000)
+    keys = set()
+    for o in outcomes:
+        rounds = json.loads(o)[0]
+        keys.add(json.dumps([[r['delivered'], r['exc']] for r in rounds]))
+    return cfg, sorted(keys), [v['kind'] for v in viols]
+
+
+def conformance(prop, result, tier):
+    """Binds the executor models to the real pools: configurations are explored on the models (all schedules) and
+    run on the real thread / process pools in a separate interpreter; each real observation must be one of the
+    model's outcomes.  A real observation outside the set means the MODEL is wrong (exit 2), not the library."""
+    import subprocess
+    cfgs = []
+    for backend in ['t'] + PROCESS_BACKENDS:
+        cfgs.append(dict(entry='prefetch', n=4, w=2, b=2, backend=backend))
+        cfgs.append(dict(entry='prefetch', n=3, w=2, b=2, backend=backend, consumers=[['close', 1], ['exhaust']]))
+        cfgs.append(dict(entry='prefetch', n=3, w=2, b=2, backend=backend, fail_fn={1: 'ValueError'}))
+        cfgs.append(dict(entry='parmap', n=3, w=2, b=2, backend=backend, fail_src={2: 'ValueError'}))
+        if backend in ('t', 'mp', 'dill_mp'):
+            cfgs.append(dict(entry='prefetch', n=4, w=2, b=2, backend=backend, fail_fn={0: 'FilterException', 2: 'FilterException'},
+                             catch=True))
+            cfgs.append(dict(entry='parmap', n=3, w=2, b=3, backend=backend, mode='items'))
+    if tier == 'quick':
+        cfgs = [c for c in cfgs if c['backend'] in ('t', 'dill_mp')]
+    model = {}
+    for cfg, keys, kinds in common.pmap(_conf_task, cfgs):
+        model[json.dumps(cfg, sort_keys=True)] = keys
+    script = __import__('os').path.join(common.VERIF, 'vf', 'realpool.py')
+    runs = 2 if tier == 'quick' else 4
+    validated = 0
+    for rep in range(runs):
+        try:
+            r = subprocess.run(['/venv/bin/python', '-B', script, common.REPO], input=json.dumps(cfgs), capture_output=True,
+                               text=True, timeout=600)
+            real = json.loads(r.stdout)
+        except subprocess.TimeoutExpired:
+            result.violations.append(common.Violation(prop, 'real-pools/hang', 'the real pools did not finish the conformance '
+                                                      'configurations within 600 s', {'engine': 'realpool'}))
+            break
+        except Exception as e:      # noqa: BLE001
+            result.harness_errors.append(f'real-pool run failed: {e}: {r.stderr[-300:] if "r" in dir() else ""}')
+            break
+        for cfg, rounds in zip(cfgs, real):
+            key = json.dumps([[x['delivered'], x['exc']] for x in rounds])
+            validated += 1
+            if key not in model[json.dumps(cfg, sort_keys=True)]:
+                result.harness_errors.append(f'executor model does not cover a real observation: {cfg}: real {key}, '
+                                             f'model outcomes {model[json.dumps(cfg, sort_keys=True)]}')
+    result.coverage['real_pool_runs_matched_to_model'] = validated
+    result.coverage['traces_validated_against_impl_real_pools'] = validated
+
+
 def finish(result, floor_exec):
     cov = result.coverage
     cov['traces_validated_against_impl'] = cov.get('executions', 0)
